@@ -1,5 +1,5 @@
 SPECIFICATION Spec
-CONSTRAINT Bound
+CONSTRAINT BoundT
 VIEW View
 INVARIANT Gate530
 INVARIANT Seq503
